@@ -132,6 +132,29 @@ theorem c07_requests_pipelined (g : Cfg) (ms : List Msg) (segs : List Bytes)
   simp only [requestsOf, deliveredOf, procRun_requests ms (fun m hm => ⟨(hall m hm).1, hreq m hm⟩)]
   exact filterMap_req_flatten ms
 
+theorem filterMap_resp_flatten (ms : List Msg) :
+    ((ms.map fun m => (respSpec m).toList.map Delivered.resp).flatten).filterMap
+        (fun | .resp r => some r | _ => none) = ms.filterMap respSpec := by
+  induction ms with
+  | nil => rfl
+  | cons m ms ih =>
+    simp only [List.map_cons, List.flatten_cons, List.filterMap_append, List.filterMap_cons, ih]
+    cases respSpec m <;> simp [Option.toList]
+
+/-- **C07 pipelined, delivered level, client.** Any segmentation of the concatenated renderings of well-formed
+    responses (none of them a reply to HEAD that announces a body: that is outside `wfMsg`-with-body-present, known
+    finding HTTP-CLIENT-HEAD), run through the driver's chain and the client processor logic, hands the callback exactly
+    the `respSpec`s, in order. -/
+theorem c07_responses_pipelined (g : Cfg) (ms : List Msg) (segs : List Bytes)
+    (hsegs : segs.flatten = (ms.map Msg.render).flatten)
+    (hall : ∀ m ∈ ms, wfMsg m = true ∧ roleOk g m ∧ (g.maxBody = 0 ∨ m.body.bytes.length ≤ g.maxBody))
+    (hresp : ∀ m ∈ ms, ∃ pr code reason, m.start = .status pr code reason) :
+    responsesOf (feedAllL (machine g) 0 (init g) [] segs []).evs = ms.filterMap respSpec := by
+  obtain ⟨p', _, e⟩ := c07_driver_any_segmentation g ms segs hsegs hall
+  rw [e]
+  simp only [responsesOf, deliveredOf, procRun_responses ms hresp]
+  exact filterMap_resp_flatten ms
+
 /-- **C07 (header lookup, representation independent).** For a delivered request, what the handler finds under any
     header name is the list of that field's values in arrival order — a `filter` over the message's fields; no multimap
     construction is shared between the two sides of this statement. -/
